@@ -151,7 +151,7 @@ func c13One(c *Ctx, spec connSpec, stream []byte, tag string, limit int) error {
 			c.oracleFail(fmt.Sprintf("delivered a %d-byte message with read limit %d [%s]", len(e.Payload), limit, tag), "oversize-delivered", replay)
 		}
 	}
-	if obs.PeakAlloc > allocBudget(limit, len(stream)) {
+	if obs.PeakAlloc > allocBudget(limit, len(stream), obs.Chunks) {
 		c.oracleFail(fmt.Sprintf("allocated %d bytes while reading with limit %d [%s]", obs.PeakAlloc, limit, tag), "over-allocation", replay)
 	}
 	if !skip {
